@@ -1,7 +1,7 @@
 (* C15  Emulated failures fail every data call, change nothing, and are reversible. *)
 From Coq Require Import List Bool.
 From Minidyn Require Import Base.Str Base.FMap Base.Outcome Model.Value Model.Key Model.Index Model.Table Model.Client.
-From Minidyn Require Import Proofs.ClientFacts Proofs.Lifecycle.
+From Minidyn Require Import Proofs.ClientFacts Proofs.Lifecycle Proofs.FailureAll.
 Import ListNotations.
 
 Theorem C15_failure_blocks_and_changes_nothing :
@@ -42,3 +42,21 @@ Theorem C15_batch_under_failure_general :
     c_failure c = Some FInternal ->
     batch_write lm s c reqs = (c, ok_obs (PBatchWrite (all_unprocessed reqs [])) []).
 Proof. exact batch_under_failure_general. Qed.
+
+(* under the deprecated forced failure a batch write returns the configured error and changes nothing, whatever it holds -
+   also when it holds no request at all (the failure used to be noticed only while a request was looked at) *)
+Theorem C15_batch_under_forced_failure :
+  forall lm s c reqs,
+    c_failure c = Some FDeprecated ->
+    batch_write lm s c reqs = (c, err_obs ForcedFailure).
+Proof. exact batch_under_forced_failure. Qed.
+
+(* ... so the erasure holds for episodes that contain batch writes too: activate, run ANY data calls (single operations,
+   batch reads, batch writes of any composition - empty, malformed, oversized), deactivate: the client is what it was *)
+Theorem C15_failure_erasable_with_batches :
+  forall lm lu sdk c f ops,
+    c_failure c = None ->
+    Forall (fun o => data_op o = true /\ v1_name_ok sdk (name_of o) = true /\
+                     match o with OBatchGet _ _ => sdk = V2 | _ => True end) ops ->
+    set_failure (fold_left (fun c o => fst (step lm lu sdk c o)) ops (set_failure c (Some f))) None = c.
+Proof. exact failure_erasable_all. Qed.
